@@ -3,3 +3,4 @@
 pub mod common;
 pub mod seed;
 pub mod c05k;
+pub mod c11;
